@@ -3,4 +3,6 @@
 set -e
 cd "$(dirname "$0")"
 ./run.sh build
+# warm the build cache: real binaries, the rewritten dispatcher and the race-detector build
+for c in C17 C03; do ./run.sh $c quick --prepare-only || exit 1; done
 echo setup ok
